@@ -13,6 +13,7 @@ from . import common as C
 ID = "C17"
 LOCALITY = False            # the judge is sequential (reference line + integer line): no inserted relatives
 COLD_START = False          # ... and no sampled request lists
+ENV_MONITOR = False
 TITLE = "All operand forms of an operator compute the same function"
 RULE = ("consistency monitor (no value oracle): for every operation (+ - * / % checked_* div_rounded mul_rounded quantize, "
         "== < and friends) the driver executes EVERY form (vv rv vr rr, compound assignment av ar) of one impl on the same "
